@@ -242,10 +242,9 @@ def attach_scc_subdiagram(
                 sd.node_data(main_node_id)["attractor_sets"] = None
             sd.node_data(main_node_id)["expanded"] = True
 
-        if check_maa:
-            if len(scc_sd.node_attractor_candidates(scc_node_id, compute=True)) == 0:
-                sd.node_data(main_node_id)["attractor_seeds"] = []
-                sd.node_data(main_node_id)["attractor_sets"] = []
+        if check_maa and _has_no_attractor_candidates(scc_sd, scc_node_id):
+            sd.node_data(main_node_id)["attractor_seeds"] = []
+            sd.node_data(main_node_id)["attractor_sets"] = []
 
     assert len(node_id_map) == len(scc_sd)
 
@@ -271,9 +270,20 @@ def attach_scc_subdiagram(
         sd.node_data(attach_at)["attractor_sets"] = None
     sd.node_data(attach_at)["expanded"] = True
     # Finally, if we are checking for MAAs, we can do that for the root too:
-    if check_maa:
-        if len(scc_sd.node_attractor_candidates(scc_sd.root(), compute=True)) == 0:
-            sd.node_data(attach_at)["attractor_seeds"] = []
-            sd.node_data(attach_at)["attractor_sets"] = []
+    if check_maa and _has_no_attractor_candidates(scc_sd, scc_sd.root()):
+        sd.node_data(attach_at)["attractor_seeds"] = []
+        sd.node_data(attach_at)["attractor_sets"] = []
 
     return min_traps
+
+
+def _has_no_attractor_candidates(scc_sd: SuccessionDiagram, node_id: int) -> bool:
+    """
+    True if the candidate search proves that the node has no attractors outside of
+    its successors. A failed search (e.g. an exceeded candidate limit) means "unknown",
+    the same way as in the block expansion, and must not interrupt the attachment.
+    """
+    try:
+        return len(scc_sd.node_attractor_candidates(node_id, compute=True)) == 0
+    except RuntimeError:
+        return False
